@@ -519,8 +519,13 @@ def latch(ctx, prog):
     ctx.floor(R, len(ws) + len(rs), 2)
 
 
+def depend_on_cutoff(ctx, prog):
+    from .c06 import preserve_cutoff
+    preserve_cutoff(ctx, prog, "C01.DATA-preserve-cutoff")
+
+
 for _f, _id in ((sib_children, "C01.SIB-children"), (pdom_sched, "C01.PDOM-sched"), (dom_stamp, "C01.DOM-stamp"),
-                (latch, "C01.LATCH-mapref")):
+                (latch, "C01.LATCH-mapref"), (depend_on_cutoff, "C01.DATA-preserve-cutoff")):
     _f.rule_id = _id
 
-RULES = [sib_children, pdom_sched, dom_stamp, latch]
+RULES = [sib_children, pdom_sched, dom_stamp, latch, depend_on_cutoff]
